@@ -25,17 +25,20 @@ def make_classes():
             super().__init__()
             self.r, self.n, self.flavor = r, n, flavor
             self.data = [r * 1000 + i for i in range(n)]
+            self.ids = tuple(self.data)   # per-sample access never depends on what happened to the bulk list
             self.disposed = 0
 
         def __len__(self):
             return self.n
 
         def getitem_x(self, idx, ctx=None):
-            return self.data[idx]  # list-backed: Python negative indices work
+            return self.ids[idx]  # list-backed: Python negative indices work
 
         def getall_x(self):
             if self.flavor == "list":
                 return list(self.data)
+            if self.flavor == "listref":
+                return self.data   # hands out its internal list (layers above must not modify it)
             if self.flavor == "numpy":
                 return np.array(self.data)
             return torch.tensor(self.data)
@@ -81,7 +84,7 @@ def build(r, K, max_layers, max_n):
         t.update(kw)
         return t
 
-    flavor = r.choice(["list", "list", "numpy", "tensor"])
+    flavor = r.choice(["list", "listref", "numpy", "tensor"])
     n_layers = r.randint(1, max_layers)
     for li in range(n_layers):
         kinds = ["root"] if not objs else ["root", "subset", "subset", "subsetw", "repeat", "shuffle", "concat", "concat",
@@ -180,6 +183,9 @@ def observe(p, terms, objs, lens):
         if not last.filename.endswith("kd_concat_dataset.py"):  # raised by the concat layer itself (any helper)
             raise
         garef = True
+    if not garef and len(ga) != n:
+        # wrong already; do not go on calling the bulk accessor (a layer that grows a shared list would explode)
+        raise RuntimeError(f"getall_x returned {len(ga)} values for a dataset of length {n}")
     if garef:
         gal, helpers = [], True
     else:
